@@ -186,6 +186,33 @@ def refusal_cases() -> list[tuple[str, str]]:
                 want = "refused" if must_refuse else "accepted"
                 out.append((f"refusal:{fname}:{sa}:{sb}:{n}", "" if got == want else
                     f"{fname}({sa}, {sb}) was {got}, must be {want}"))
+    # variadic sums and differences (3 and 4 operands): refused unless all operands share one
+    # Cartesian system, wherever the foreign operand stands; accepted sums equal the pairwise sum
+    names = ["cart1", "cart2", "cyl1", "cartS", "cylS", "cartT"]
+    for k in (3, 4):
+        for combo in itertools.product(names, repeat=k):
+            if k == 4 and len(set(combo)) > 2:
+                continue
+            vs = [Vector(gen("abcd"[i], 2 + (i % 2)), systems[nm]) for i, nm in enumerate(combo)]
+            same = all(systems[nm] is systems[combo[0]] for nm in combo)
+            if not same and all(nm in shared and nm[:3] == combo[0][:3] for nm in combo):
+                continue  # wrappers of one kind around one inner system: left open
+            want = "accepted" if same and combo[0].startswith("cart") else "refused"
+            for fname, fn in (("add", add_cartesian_vectors), ("subtract",
+                subtract_cartesian_vectors)):
+                try:
+                    r = fn(*vs)
+                    got = "accepted"
+                except (ValueError, TypeError):
+                    got = "refused"
+                msg = "" if got == want else f"{fname}{combo} was {got}, must be {want}"
+                if not msg and got == "accepted":
+                    pair = vs[0]
+                    for w in vs[1:]:
+                        pair = fn(pair, w)
+                    if not R.vec_equal(r.components, pair.components):
+                        msg = f"{fname}{combo} differs from the pairwise result"
+                out.append((f"refusal:{fname}:{'+'.join(combo)}", msg))
     # default coordinate system of Vector() is one shared Cartesian instance
     A, B = Vector(gen("a", 2)), Vector(gen("b", 3))
     try:
